@@ -6,6 +6,8 @@
 #include "replay.h"
 struct Reporter : MemoryLeakFailure { int n; Reporter() : n(0) {} void fail(char*) { n++; } };
 static void* failing_realloc(void*, size_t) { return 0; }
+static void *watched; static int watched_frees; static void (*real_free)(void*);
+static void watching_free(void *m) { if (m && m == watched) { watched_frees++; return; } real_free(m); }   /* the watched block is kept, so the rest of the driver stays defined */
 int main(int argc, char **argv)
 {
     r_init(argc, argv);
@@ -20,11 +22,13 @@ int main(int argc, char **argv)
     p[0] = 'x';
     void* (*saved)(void*, size_t) = PlatformSpecificRealloc;
     if (fails || size > ((size_t)1 << 40)) PlatformSpecificRealloc = failing_realloc;
+    watched = p; real_free = PlatformSpecificFree; PlatformSpecificFree = watching_free;
     char *q = det.reallocMemory(a, p, size, "new.c", 9, sep);
-    PlatformSpecificRealloc = saved;
+    PlatformSpecificRealloc = saved; PlatformSpecificFree = real_free;
     size_t tracked = det.totalMemoryLeaks(mem_leak_period_all);
     printf("reallocMemory(16 -> %zu, separate=%d, underlying realloc %s): result %p, tracked blocks afterwards %zu, reports %d\n", size, (int)sep, fails ? "fails" : "works", (void*)q, tracked, rep.n);
     if (q == 0) {
+        if (watched_frees) REPRODUCED("realloc returned NULL but handed the old block back to the platform (%d free call(s)): the block is dangling yet still tracked", watched_frees);
         if (tracked != 1) REPRODUCED("realloc failed but the old block is no longer tracked (tracked = %zu)", tracked);
         det.deallocMemory(a, p, "f.c", 1, sep);
         if (rep.n != 0 || det.totalMemoryLeaks(mem_leak_period_all) != 0) REPRODUCED("old block cannot be released normally after the failed realloc");
